@@ -658,9 +658,18 @@ func TestVP_C25_distribution(t *testing.T) {
 	custodian := vpC25Addresses()[128]
 	ref := vpC25Reference()
 	outer := t
+	readyNoMint, readyStates := 0, 0
+	defer func() {
+		if readyNoMint*10 > readyStates && !outer.Failed() {
+			kit.Inconclusive(outer, "generator: %d of %d states built as ready produced no mint", readyNoMint, readyStates)
+		}
+	}()
 	rapid.Check(t, func(t *rapid.T) {
 		cs := vpC25Generate(t, maxNodes)
 		cs.classify()
+		if cs.ready {
+			readyStates++
+		}
 		req := &common.CustodianUpdateRequest{Custodian: &custodian}
 		validateOnly := false
 		wantAmount := ref.between(cs.old, cs.batch)
@@ -686,8 +695,13 @@ func TestVP_C25_distribution(t *testing.T) {
 		fp := fmt.Sprintf("%d/%d/%v", cs.batch, cs.old, cs.works)
 		if tx == nil {
 			if cs.ready {
-				// not demanded by the property, but the generator relies on it: a ready state must produce a mint
-				kit.Inconclusive(outer, "generator: state built as ready produced no mint (batch %d)", cs.batch)
+				// not demanded by the property, but the generator relies on it: a
+				// ready state should produce a mint. Counted; the run is declared
+				// inconclusive at the end if it happens in more than a tenth of the
+				// ready states
+				readyNoMint++
+				c.Case(fp, false, "ready-state-produced-no-mint")
+				return
 			}
 			c.Case(fp, false, "not-built")
 			return
